@@ -849,4 +849,28 @@ system-contract address panics. -/
 theorem reuse_variant_panics : ∃ k, lcValidate k .sysContract = .ok () ∧ (setEVMCodeReuse (some k)).isPanic = true :=
   ⟨.delayedVesting, by decide, by decide⟩
 
+/-! ### the block phase does not depend on the block gas meter -/
+
+/-- **block_phase_total_any_gas**: the modelled Begin/EndBlock steps (proposal execution of every xibc and aggregate kind) give
+the same outcome under every block-gas state — absent, infinite, finite at any fill level — and, for validated contents, never
+panic.  (The tie to the code is the dynamic runs at the fill levels empty / half / limit−1000 / limit−1 / full.) -/
+theorem block_phase_total_any_gas (g g' : BlockGas) (e : Env) (s : XSt) (p : XProp) (ce : CoinEnv) (a : ASt) (cp : CoinProp)
+    (ok : Bool) (lp : LimitProp) :
+    xHandleInBlock g e s p = xHandleInBlock g' e s p ∧ registerCoinInBlock g ce a cp = registerCoinInBlock g' ce a cp ∧
+    evmOnlyInBlock g ok = evmOnlyInBlock g' ok ∧ enableLimitInBlock g ok lp = enableLimitInBlock g' ok lp ∧
+    (xValidateBasic p = .ok () → (xHandleInBlock g e s p).isPanic = false) ∧
+    (coinValidateBasic cp = .ok () → (registerCoinInBlock g ce a cp).isPanic = false) ∧
+    (evmOnlyInBlock g ok).isPanic = false ∧ (limitValidateBasic lp = .ok () → (enableLimitInBlock g ok lp).isPanic = false) :=
+  ⟨rfl, rfl, rfl, rfl, fun h => xibc_proposal_no_panic e s p h, fun h => registerCoin_no_panic ce a cp h,
+   evmOnly_no_panic ok, fun h => enableLimit_no_panic ok lp h⟩
+
+/-- charging the call's gas to a finite, almost full block meter is NOT total. -/
+theorem charging_block_gas_panics :
+    (evmOnlyChargingBlock { finite := true, limit := 10000000, consumed := 9999999 } true 50000).isPanic = true := by decide
+
+/-- … while an absent / infinite meter hides it (why keeper-level tests never see it). -/
+theorem charging_infinite_meter_fine (c n : Nat) :
+    (evmOnlyChargingBlock { finite := false, limit := 0, consumed := c } true n).isPanic = false := by
+  simp [evmOnlyChargingBlock, consumeBlockGas]
+
 end TM.NoPanic
